@@ -208,3 +208,8 @@ pub fn revision_number(revision: crate::Revision) -> usize {
 pub fn current_revision_number(db: &dyn crate::Database) -> usize {
     db.zalsa().current_revision().as_usize()
 }
+
+/// Construction and decoding of stored query origins from plain edge tuples.
+pub mod origin {
+    pub use crate::zalsa_local::verif_origin::*;
+}
